@@ -27,6 +27,10 @@ def closed(name, kind, n, salpha=(), balpha=(), m=Fr(2), n2=1, n3=1, seed=Fr(1, 
 def scripted(name, cfgs, script, **kw):
     kw.setdefault("emit", "EmitStep")
     kw.setdefault("keep", False)
+    # a script is always executed to its end: where the 32-bit rationals of the transcription overflow (long periods: the
+    # denominators of the incremental fields grow with n^2) the transcription's value is the absorbing OVF and Refines is
+    # vacuous from there on, but the documented value (computed from the window each step) is still the expectation replayed
+    kw.setdefault("noovf", False)
     return Job(name, cfgs, initial=(), script=script, **kw)
 
 
@@ -96,7 +100,11 @@ def plan_C01(tier, seed):
             # followed by fresh values (a state after reset merges with the initial state in the VIEW, so the continuation
             # is what makes the real post-reset instance run)
             conts = [[{"op": "reset", "i": 1}] + ct for ct in continuations(kind, n)] if n <= 3 else []
-            jobs.append(closed("%s_n%d" % (kind, n), kind, n, salpha=alpha, m=m, resets={1} if n <= 3 else (), conts=conts))
+            # with a spike in the window the 32-bit rationals overflow for the quadratic kinds (SD, BB): the run goes on (the
+            # transcribed fields stay OVF, absorbing), and once the spike has left the window the documented value, computed
+            # from the window alone, is again the expectation -- the step where cancellation has to have left nothing behind
+            jobs.append(closed("%s_n%d" % (kind, n), kind, n, salpha=alpha, m=m, resets={1} if n <= 3 else (), conts=conts,
+                               noovf=(n > 2)))
         if tier == "thorough":
             # wider alphabet for short periods, and the other multipliers
             for n in (1, 2, 3):
@@ -823,7 +831,9 @@ def plan_C09(tier, seed):
     jobs.append(closed("TR_b", "TR", 1, balpha=bars, maxdepth=4, invariants=inv))
     for t3 in [(1, 2, 3), (3, 1, 2), (2, 2, 1), (5, 3, 2)]:
         jobs.append(closed("MACD_%d_%d_%d" % t3, "MACD", t3[0], n2=t3[1], n3=t3[2], salpha=A5, maxdepth=(5 if q else 6), invariants=inv))
-        jobs.append(closed("PPO_%d_%d_%d" % t3, "PPO", t3[0], n2=t3[1], n3=t3[2], salpha=(A5 if t3[0] != t3[1] else P3), maxdepth=(5 if q else 6), invariants=inv))
+        # (noovf off: steps on which the percentage is undefined - a slow average of exactly 0 - are explored too; histogram = line - signal
+        #  is a statement about the outputs whatever their value)
+        jobs.append(closed("PPO_%d_%d_%d" % t3, "PPO", t3[0], n2=t3[1], n3=t3[2], salpha=(A5 if t3[0] != t3[1] else P3), maxdepth=(5 if q else 6), invariants=inv, noovf=False))
     # cancellation-engineered streams: spikes / large values, then flat or nearly flat stretches
     for kind in ("SMA", "WMA", "SD", "MAD", "MIN", "BB", "EMA", "ATR", "KC", "CE", "MACD", "PPO", "TR"):
         for rep in range(2 if q else 6):
